@@ -191,14 +191,9 @@ def nanosRaw (r : Rat → Rat) (ipd ticks : Int) : Int := toUint32 (r (subAdj r 
 def roundedOff (r : Rat → Rat) (ipd ticks : Int) : Int :=
   toUint64 (r ((goRound (r (fsAdj r ipd ticks * subnanosecondC)) : Rat) / subnanosecondC))
 
-<<<<<<< HEAD
 /-- `GetTimeFromTicks(intervalStart, intervalsPerDay, intervalTicks)` as it was BEFORE the repair
     `fix: GetTimeFromTicks floors the second` (kept to document the defect C10-F5) -/
 def getTimeFromTicksOld (r : Rat → Rat) (start ipd ticks : Int) : Decoded :=
-=======
-/-- `GetTimeFromTicks(intervalStart, intervalsPerDay, intervalTicks)` as written -/
-def getTimeFromTicks (r : Rat → Rat) (start ipd ticks : Int) : Decoded :=
->>>>>>> w3b7
   { sec := (start + roundedOff r ipd ticks) % two64, nanos := nanosRaw r ipd ticks }
 
 /-- whole seconds of the repaired decoder: `whole := math.Floor(fractionalSeconds)`, `whole++`
